@@ -156,6 +156,9 @@ type world struct {
 	step    drv.Step                    // the Bcast step in progress (policies of the faulty members)
 	flying  int
 	idle    *sync.Cond
+	turn    []chan struct{} // signature requests of the running Broadcast are served in peer order
+	served  int
+	allDone chan struct{} // closed when every peer's request has been served
 }
 
 type cbRecord struct {
@@ -395,21 +398,85 @@ func (w *world) leave() {
 	w.mu.Unlock()
 }
 
+// The client sends its signature requests concurrently and fails fast (forkjoin cancels what has not started yet),
+// so which requests are served, and in which order, would depend on goroutine scheduling.  The transport removes
+// that: requests are served in peer order and a failing answer is held back until every peer's request has been
+// served.  (Time-outs only guard against a client that never sends some request.)
+func (w *world) startRun(h int) {
+	w.turn = make([]chan struct{}, w.n)
+	for i := range w.turn {
+		w.turn[i] = make(chan struct{})
+	}
+	close(w.turn[0])
+	w.served = 0
+	w.allDone = make(chan struct{})
+}
+
+func rank(h, t int) int { // position of peer t among the peers of h's client
+	if t > h {
+		return t - 2
+	}
+
+	return t - 1
+}
+
+func await(ctx context.Context, c chan struct{}) {
+	select {
+	case <-c:
+	case <-ctx.Done():
+	case <-time.After(2 * time.Second):
+	}
+}
+
+// next passes the turn on; called with w.mu held.
+func (w *world) next(r int) {
+	select {
+	case <-w.turn[r+1]:
+	default:
+		close(w.turn[r+1])
+	}
+	w.served++
+	if w.served == w.n-1 {
+		close(w.allDone)
+	}
+}
+
+func (w *world) fail(ctx context.Context, err error) error {
+	all := w.allDone
+	w.mu.Unlock()
+	await(ctx, all)
+	w.mu.Lock()
+
+	return err
+}
+
 func (w *world) sendRecv(h int, s string) p2p.SendReceiveFunc {
 	return func(ctx context.Context, _ host.Host, to peer.ID, req, resp proto.Message, _ protocol.ID, _ ...p2p.SendRecvOption) error {
+		t := w.idx(to)
+		if t == 0 || t == h {
+			return errors.New("transport: unexpected peer")
+		}
+		w.mu.Lock()
+		turn := w.turn[rank(h, t)]
+		w.mu.Unlock()
+		await(ctx, turn)
 		if !w.enter(ctx) {
+			w.mu.Lock()
+			w.next(rank(h, t))
+			w.mu.Unlock()
+
 			return ctx.Err()
 		}
 		defer w.leave()
-		t := w.idx(to)
+		w.next(rank(h, t))
 		sreq, ok := req.(*pb.BCastSigRequest)
-		if !ok || t == 0 {
+		if !ok {
 			return errors.New("transport: unexpected request")
 		}
 		if !w.faulty[t] {
 			r, err := w.callSig(t, s, h, sreq.GetId(), sreq.GetMessage())
 			if err != nil {
-				return errors.New("stream closed without response") // the requester never sees the reason
+				return w.fail(ctx, errors.New("stream closed without response")) // the requester never sees the reason
 			}
 			proto.Merge(resp, r)
 
@@ -422,7 +489,7 @@ func (w *world) sendRecv(h int, s string) p2p.SendReceiveFunc {
 		switch mode {
 		case "err":
 			w.tr.Emit(drv.Step{"ev": "FReply", "h": h, "sess": s, "f": t, "kind": "err", "sig": garbage.step()})
-			return errors.New("stream closed without response")
+			return w.fail(ctx, errors.New("stream closed without response"))
 		case "garbage":
 			d = garbage
 		case "short":
@@ -558,6 +625,7 @@ func runOne(t *testing.T, tr *drv.Tracer, hosts []host.Host, keys []*k1.PrivateK
 			}
 			w.mu.Lock()
 			w.step = st
+			w.startRun(h)
 			tr.Emit(drv.Step{"ev": "BStart", "h": h, "sess": s, "id": id, "pl": pl.step()})
 			w.mu.Unlock()
 			done := make(chan error, 1)
